@@ -8,6 +8,7 @@
 // and, in directed histories only,
 //   P keypool refill TopUpKeyPool(5)          M a mempool tx paying the receiving address ONE AHEAD of next_index arrives through
 //   N lock the coin in memory only              AddToWalletIfInvolvingMe (MarkUnusedAddresses moves next_index past it)
+// (K re-locks persistently a coin that is only locked in memory, as lockunspent false [o] true does)
 // are explored breadth-first (an operation is only applied where it is enabled; states with equal DB records and equal
 // in-memory snapshot are merged). Every history ends with a clean close; a fresh process reloads the file and must see
 // exactly what the wallet held before the close: flags, descriptors with private keys and next indices, transactions
@@ -437,8 +438,8 @@ int main(int argc, char** argv)
     // directed histories around MarkUnusedAddresses: a payment to a look-ahead address, with the default range (the top-up that
     // follows grows the range) and after a keypool refill (the range already covers it), then a clean restart / more addresses
     {
-        std::vector<std::string> dir{"M", "P M", "P M A", "P M X A", "A P M M"};
-        if (getenv("C43_LOCK_QUIRK")) dir = {"N K U", "N K"};
+        // ... and around memory-only coin locks: a persistent re-lock of a coin locked in memory only, then unlock / restart
+        std::vector<std::string> dir{"M", "P M", "P M A", "P M X A", "A P M M", "N K U", "N K", "N K X U", "N U K"};
         run_chosen(dir, "/directed", /*crash=*/big);
         if (S.error) return 2;
     }
@@ -527,7 +528,7 @@ int main(int argc, char** argv)
     E.set("creation_loaded_with_8_descriptors", pool.counts["creation_loaded_8_descriptors"]);
     E.set("creation_not_loadable", pool.counts["creation_not_loadable"]);
     E.exhaustive = !S.cut_short;
-    E.rule = "directed histories {M} {P M} {P M A} {P M X A} {A P M M} (P keypool refill to 5, M mempool payment to the receiving address one ahead of next_index through AddToWalletIfInvolvingMe) and histories over {A T F S L D K U I R G X} (see header), breadth-first to depth " + std::to_string(g_cfg.max_depth) +
+    E.rule = "directed histories {M} {P M} {P M A} {P M X A} {A P M M} {N K U} {N K} {N K X U} {N U K} (N memory-only coin lock, P keypool refill to 5, M mempool payment to the receiving address one ahead of next_index through AddToWalletIfInvolvingMe) and histories over {A T F S L D K U I R G X} (see header), breadth-first to depth " + std::to_string(g_cfg.max_depth) +
              ", operations applied only where enabled, states merged on equal DB records + in-memory snapshot; per history a clean close + LoadExisting in a fresh process compared with the pre-close wallet; " +
              (big ? "for every history to depth " + std::to_string(crash_depth) + " and {T S R}" : std::string("for the histories {A} {I} {L D} {T S R}")) + " every crash state with crash point in the last operation (kill prefixes" + (big ? ", torn last writes at depth 1" : "") +
              ", power-loss cuts; deduplicated by bytes) reloaded; plus every crash state of wallet creation. evaluations = reloads judged; distinct_nontrivial = distinct (history, reloaded records + snapshot) outcomes";
